@@ -103,7 +103,7 @@ Inductive case :=
    returned a query; impl_max = the real maxNestingDepth (exported constant). eval = false: only
    the constant and the expected outcome by level arithmetic are checked (quick tier), true: the
    byte-level model parses the same bytes *)
-| CNest (seqql nots : bool) (n impl_max : nat) (impl_ok evalm : bool).
+| CNest (seqql nots : bool) (n impl_max : N) (impl_ok evalm : bool).
 
 Definition T := mkTok.
 
@@ -317,8 +317,8 @@ Definition case_agrees (c : case) : bool :=
       | _, _ => false
       end
   | CNest seqql nots n impl_max impl_ok evalm =>
-      Nat.eqb impl_max max_nesting_depth
-      && (if evalm then Bool.eqb (nest_model_ok seqql nots n) impl_ok else true)
+      N.eqb impl_max (N.of_nat max_nesting_depth)
+      && (if evalm then Bool.eqb (nest_model_ok seqql nots (N.to_nat n)) impl_ok else true)
   end.
 
 (* implementation output satisfies the property (independent of the model's parser) *)
@@ -377,7 +377,7 @@ Definition case_spec_ok (c : case) : bool :=
       end
   | CNest _ _ n impl_max impl_ok _ =>
       (* n brackets / NOTs put the leaf at level n + 1: accepted iff n + 1 <= maxNestingDepth *)
-      Bool.eqb impl_ok (Nat.leb (S n) impl_max)
+      Bool.eqb impl_ok (N.leb (n + 1) impl_max)
   end.
 
 Definition diff_indices (l : list case) : list nat := bad_indices (fun c => negb (case_agrees c)) l.
